@@ -6,10 +6,12 @@ Components (Comp):  RbStatic   `rbs <every> <ops>`                 the static rb
                                                                    LAST append, unlink, free, re-insert, find, and duplication of a
                                                                    source list into the parent (lyd_dup_siblings / lyd_dup_single,
                                                                    WITH_PARENTS, NO_LYDS) into 0 / 1 / >= 2 instances with and
-                                                                   without a sorting tree (Sorted.lyds_dup)
+                                                                   without a sorting tree (Sorted.lyds_dup), and lyd_merge_tree /
+                                                                   lyd_merge_siblings with and without LYD_MERGE_DESTRUCT of a source
+                                                                   list (g<o>; Sorted.lyd_merge_list: lyds_pool_add, lyds_insert2,
+                                                                   lyds_additionally_reuse_rb_tree, the pool running dry anywhere)
 Oracles:            SortedOrder  `lyds` lines (also with ops that are NOT in the Coq model: s<i> = lyd_unlink_siblings -> lyds_split,
-                                 m = insert the chain again -> lyds_merge, g<o> = lyd_merge_tree / lyd_merge_siblings with and
-                                 without DESTRUCT, p<o> at top level = duplicates without parent + lyd_insert_sibling) judged on the
+                                 m = insert the chain again -> lyds_merge, p<o> at top level = duplicates without parent + lyd_insert_sibling) judged on the
                                  implementation alone against a Python model of the abstract sequence semantics (SeqModel)
                     SiblingOrder `sib` lines: ALL children of one parent (leaves, system-ordered leaf-list, user-ordered list and
                                  leaf-list, opaque nodes; with / without children hash table; container / top level) under create,
@@ -285,6 +287,38 @@ def dup_scripts(rng, thorough, places, model):
     return L
 
 
+def merge_scripts(rng, thorough):
+    """target of nt instances (appended without tree - sorted or not -, or inserted with tree), source of ns instances (with tree
+    when ns >= 2 and built by sorted inserts; without when appended), keys distinct inside each list, all overlaps"""
+    L = []
+    types = TYPES if thorough else ["i8", "l2", rng.choice(["str", "d64", "un", "l1"])]
+    places = PLACES if thorough else ["c0", "c2", "t0", rng.choice(["c1", "t1", "t2"])]
+    for t in types:
+        for p in places:
+            for nt in range(0, 7 if thorough else 6):
+                for ns in range(1, 6 if thorough else 5):
+                    for rep in range(3 if thorough else 1):
+                        tk = rng.sample(range(-9, 10), nt)
+                        sk = rng.sample(range(-9, 10), ns)
+                        for tmode in ("a", "as", "i"):
+                            if tmode == "a" and p[1] == "2":
+                                continue
+                            keys = sorted(tk) if tmode == "as" else tk
+                            if tmode == "as" and p[1] == "2":
+                                tpre = ["i%d" % k for k in keys]
+                            else:
+                                tpre = ["%s%d" % ("i" if tmode == "i" else "a", k) for k in keys]
+                            for smode in ("c", "C"):
+                                spre = ["%s%d" % (smode, k) for k in sk]
+                                for g in ("g1", "g0"):
+                                    live = sorted(set(tk) | set(sk))
+                                    free = [k for k in range(-9, 10) if k not in live]
+                                    fo = rng.choice([["i%d" % free[0]], ["q%d" % sk[0], "d0", "i%d" % free[-1]],
+                                                     ["u0", "r0"], ["d%d" % (len(live) - 1), "q%d" % live[-1]]])
+                                    L.append("lyds\t%s\t%s\t1\t%s" % (t, p, " ".join(tpre + spre + [g] + fo)))
+    return L
+
+
 class RbStatic(_Base):
     """rb_insert_node / rb_insert_color / rb_remove / rb_remove_color / rb_find / rb_next / rb_prev vs RBTree.v"""
     name = "rbs"
@@ -362,6 +396,9 @@ class LydsApi(_Base):
         # duplication into the parent (lyd_dup_siblings / lyd_dup_single, with WITH_PARENTS, NO_LYDS) of a source list built
         # by sorted inserts (c) / appends (C), into 0, 1, >= 2 existing instances with and without a sorting tree, then edits
         L += dup_scripts(rng, thorough, ["c0", "c1", "c2"], model=True)
+        # lyd_merge_tree / lyd_merge_siblings with and without LYD_MERGE_DESTRUCT (Sorted.lyd_merge_list: lyds_pool_add,
+        # lyds_insert2, lyds_additionally_reuse_rb_tree with the pool running dry at every point)
+        L += merge_scripts(rng, thorough)
         # random long scripts
         for i in range(self.n(tier, 18, 400, scale)):
             t, p = rng.choice(combos)
